@@ -324,24 +324,26 @@ func (t *cacheTransport) fetchOffline(cacheFile string) (*http.Response, error) 
 		return nil, fmt.Errorf("listing %q for offline cache: %w", cacheDir, err)
 	}
 
-	if len(des) == 0 {
-		return nil, fmt.Errorf("no offline cached entries for %s", cacheDir)
-	}
+	// Only advertised names count. "*.tmp" is the temporary file of a download that is still
+	// running, has failed or was killed: it may hold any prefix of a response.
+	var newest os.FileInfo
+	for _, de := range des {
+		if strings.HasSuffix(de.Name(), ".tmp") {
+			continue
+		}
 
-	newest, err := des[0].Info()
-	if err != nil {
-		return nil, err
-	}
-
-	for _, de := range des[1:] {
 		fi, err := de.Info()
 		if err != nil {
 			return nil, err
 		}
 
-		if fi.ModTime().After(newest.ModTime()) {
+		if newest == nil || fi.ModTime().After(newest.ModTime()) {
 			newest = fi
 		}
+	}
+
+	if newest == nil {
+		return nil, fmt.Errorf("no offline cached entries for %s", cacheDir)
 	}
 
 	f, err := os.Open(filepath.Join(cacheDir, newest.Name()))
@@ -449,6 +451,8 @@ func (t *cacheTransport) retrieveAndSaveFile(ctx context.Context, request *http.
 		}
 		return nil
 	}(); err != nil {
+		// Do not leave a partial file behind.
+		_ = os.Remove(tmp.Name())
 		return "", err
 	}
 
